@@ -67,6 +67,9 @@ def lines_of(body, prefix):
                                          ", ".join([ast.unparse(b) for b in st.bases] + [ast.unparse(k) for k in st.keywords]))
             out.append(head)
             out += lines_of(st.body, prefix + st.name + ".")
+        elif isinstance(st, ast.Assign) and not prefix and len(st.targets) == 1 and isinstance(st.targets[0], ast.Name) \
+                and st.targets[0].id in ("__version__", "__author__") and isinstance(st.value, ast.Constant):
+            continue                                     # package metadata: a constant nothing reads
         else:
             out.append(prefix + " ".join(ast.unparse(st).split()))
     return out
